@@ -61,6 +61,7 @@ type FuncSpec struct {
 	Elems     []*ElemSpec // per-element facts of a returned channel (instantiated at each receive)
 	Lets      []*LetSpec  // let NAME = expr : abbreviations evaluated in the entry (pre-call) state
 	Releases  []string    // parameters (pooled objects) whose ownership the function gives up
+	UnreachableOK int     // number of return/loop-body covers that may legitimately be unreachable
 }
 
 type LetSpec struct {
@@ -317,6 +318,12 @@ func (fs *FuncSpec) addClause(t, file string, ln int) error {
 			return err
 		}
 		fs.Ensures2 = append(fs.Ensures2, c)
+	case "unreachable_ok":
+		n, err := strconv.Atoi(strings.TrimSpace(rest))
+		if err != nil {
+			return err
+		}
+		fs.UnreachableOK = n
 	case "releases":
 		fs.Releases = append(fs.Releases, strings.Fields(rest)...)
 	case "let":
